@@ -49,6 +49,43 @@ fn en(e: PasetoError) -> String {
     err_name(&e).to_string()
 }
 
+/// seal / open with the suffixed payload type (`SUFFIX = "c"`)
+fn seal_with_c<V, P>(key: &Key<V, P::SealingKey>, nonce: Vec<u8>, msg: &[u8], f: &[u8], a: &[u8]) -> Result<String, PasetoError>
+where
+    V: SealingVersion<P>,
+    P: Purpose,
+{
+    let t = UnsealedToken::<V, P, RawC>::new(RawC(msg.to_vec())).with_footer(f.to_vec()).dangerous_seal_with_nonce(key, a, nonce)?;
+    Ok(t.to_string())
+}
+
+fn open_with_c<V, P>(key: &Key<V, P>, tok: &str, a: &[u8]) -> R
+where
+    V: UnsealingVersion<P>,
+    P: Purpose,
+{
+    let t: SealedToken<V, P, RawC, Vec<u8>> = tok.parse().map_err(|e| format!("{} dec=0 val=0", en(e)))?;
+    match t.unseal(key, a, &paseto_core::validation::NoValidation::dangerous_no_validation()) {
+        Ok(u) => Ok(format!("{} {} dec=1 val=1", hex(&u.claims.0), hex(&u.footer))),
+        Err(e) => Err(format!("{} dec=0 val=0", en(e))),
+    }
+}
+
+fn own_roundtrip_c<V, P>(sk: &Key<V, P::SealingKey>, pk: &Key<V, P>, msg: &[u8], f: &[u8], a: &[u8]) -> R
+where
+    V: SealingVersion<P>,
+    P: Purpose,
+{
+    let t = UnsealedToken::<V, P, RawC>::new(RawC(msg.to_vec())).with_footer(f.to_vec()).seal(sk, a).map_err(|e| format!("seal-{}", en(e)))?;
+    let s = t.to_string();
+    let t2: SealedToken<V, P, RawC, Vec<u8>> = s.parse().map_err(|e| format!("parse-{}", en(e)))?;
+    let u = t2.unseal(pk, a, &paseto_core::validation::NoValidation::dangerous_no_validation()).map_err(|e| format!("unseal-{} tok={}", en(e), hex(s.as_bytes())))?;
+    if u.claims.0 != msg || u.footer != f {
+        return Err(format!("mismatch got={} tok={}", hex(&u.claims.0), hex(s.as_bytes())));
+    }
+    Ok(format!("rt=1 tok={}", hex(s.as_bytes())))
+}
+
 fn seal_with<V, P>(key: &Key<V, P::SealingKey>, nonce: Vec<u8>, msg: &[u8], f: &[u8], a: &[u8]) -> Result<String, PasetoError>
 where
     V: SealingVersion<P>,
@@ -95,6 +132,39 @@ pub fn exec_more(t: &[&str]) -> R {
     let be = |i: usize| -> Result<Be, String> { t.get(i).and_then(|s| Be::parse(s)).ok_or_else(bad) };
     let st = |i: usize| -> Result<String, String> { String::from_utf8(hx(i)?).map_err(|_| bad()) };
     match t[0] {
+        // the same operations with a payload type whose `SUFFIX` is "c" (header `vNc.local.` / `vNc.public.`)
+        "locc.seal" => {
+            let (b, key, nonce, msg, f, a) = (be(1)?, hx(2)?, hx(3)?, hx(4)?, hx(5)?, hx(6)?);
+            with_v!(b, V => {
+                let k = key_of::<V, Local>(&key).map_err(en)?;
+                seal_with_c::<V, Local>(&k, nonce, &msg, &f, &a).map(|s| hex(s.as_bytes())).map_err(en)
+            })
+        }
+        "locc.open" => {
+            let (b, key, tok, a) = (be(1)?, hx(2)?, st(3)?, hx(4)?);
+            with_v!(b, V => {
+                let k = key_of::<V, Local>(&key).map_err(|e| format!("{} dec=0 val=0", en(e)))?;
+                open_with_c::<V, Local>(&k, &tok, &a)
+            })
+        }
+        "pubc.sign" => {
+            let (b, key, msg, f, a) = (be(1)?, hx(2)?, hx(3)?, hx(4)?, hx(5)?);
+            with_v!(b, V => {
+                let k = key_of::<V, Secret>(&key).map_err(en)?;
+                seal_with_c::<V, Public>(&k, vec![], &msg, &f, &a).map(|s| hex(s.as_bytes())).map_err(en)
+            })
+        }
+        "pubc.open" => {
+            let (b, key, tok, a) = (be(1)?, hx(2)?, st(3)?, hx(4)?);
+            with_v!(b, V => {
+                let k = key_of::<V, Public>(&key).map_err(|e| format!("{} dec=0 val=0", en(e)))?;
+                open_with_c::<V, Public>(&k, &tok, &a)
+            })
+        }
+        "o.rtc" => {
+            let (b, p, key, msg, f, a) = (be(1)?, Kind::parse(t.get(2).ok_or_else(bad)?).ok_or_else(bad)?, hx(3)?, hx(4)?, hx(5)?, hx(6)?);
+            with_v!(b, V => with_purpose!(p, P => o_rtc::<V, P>(&key, &msg, &f, &a), else Err(bad())))
+        }
         "loc.seal" => {
             let (b, key, nonce, msg, f, a) = (be(1)?, hx(2)?, hx(3)?, hx(4)?, hx(5)?, hx(6)?);
             with_v!(b, V => {
@@ -160,6 +230,10 @@ impl<V: SealingVersion<Public>> ORt<Public> for V {
         let pk = k.public_key();
         Ok((k, pk))
     }
+}
+fn o_rtc<V: ORt<P>, P: Purpose>(key: &[u8], msg: &[u8], f: &[u8], a: &[u8]) -> R {
+    let (sk, pk) = V::keys(key).map_err(|e| format!("key-{}", en(e)))?;
+    own_roundtrip_c::<V, P>(&sk, &pk, msg, f, a)
 }
 fn o_rt<V: ORt<P>, P: Purpose>(key: &[u8], msg: &[u8], f: &[u8], a: &[u8]) -> R {
     let (sk, pk) = V::keys(key).map_err(|e| format!("key-{}", en(e)))?;
